@@ -19,7 +19,8 @@ Answer(s) == /\ phase = "sign" /\ answers[s] = {}
                    answers' = [answers EXCEPT ![s] = (base \ dropped) \cup {SigOf(s)} \cup extra]
              /\ UNCHANGED <<base, accepted, combined, order, phase>>
 AnswerOK(a) == base \subseteq a /\ \A q \in a \ base : IsSig(q)
-Check(s) == /\ phase = "sign" /\ answers[s] # {} /\ s \notin accepted
+\* (an answer may arrive and be checked after merging has begun: the coordinator does not close the round)
+Check(s) == /\ phase \in {"sign", "combine"} /\ answers[s] # {} /\ s \notin accepted
             /\ AnswerOK(answers[s]) /\ accepted' = accepted \cup {s}
             /\ UNCHANGED <<base, answers, combined, order, phase>>
 \* the coordinator merges accepted answers one at a time, in any order (any bracketing is a sequence of such merges)
@@ -37,5 +38,8 @@ NothingInvented == phase = "combine" => combined = base \cup UNION {answers[s] :
 OnlySignaturesAccepted == \A s \in accepted : \A q \in answers[s] \ base : IsSig(q)
 NothingDropped == \A s \in accepted : base \subseteq answers[s]
 BaseKept == phase = "combine" => base \subseteq combined
+\* liveness: under weak fairness of the coordinator's steps, the signature of every signer whose answer passes the check ends up in the combined PSBT
+FairSpec == Spec /\ \A s \in Signers : WF_vars(Check(s)) /\ WF_vars(Merge(s))
+HonestSignaturesArrive == \A s \in Signers : (answers[s] # {} /\ AnswerOK(answers[s])) ~> (SigOf(s) \in combined)
 Idempotent == [][\A s \in Signers : Remerge(s) => combined' = combined]_vars
 =============================================================================
